@@ -49,6 +49,14 @@
  *       ApiActions::GetSingleObjectByNameUsingPermissions(Type, name, user): the by-name lookup execute-command uses for the
  *       endpoint, command, user and notification it is told to use (permission objects/query/<Type> and its filter)
  *
+ *   Round 4 - an inventory created THROUGH THE API (objects that really can be deleted, downtimes that really can be scheduled):
+ *   C <inventory> api                                       hosts and services only (no joins), every service's host is part of the
+ *       inventory; the objects are created with ConfigObjectUtility::CreateObject in the scratch _api package
+ *   H d <Host|Service> .. [cs=1]                            | .. gone=<objects of the WHOLE inventory that no longer exist|->
+ *       on such an inventory DELETE really deletes (cs=1: cascade=1, dependent services go too); the objects are re-created afterwards
+ *   H a:schedule-downtime <Host|Service> .. as=1            | .. dt=<objects of the WHOLE inventory that have a downtime now|->
+ *       on such an inventory the REAL schedule-downtime callback runs with all_services=1 (fixed, one hour); the downtimes are removed again
+ *
  *   K <users>                                               users = name:<password hex|->:<client_cn hex|->,... or -
  *       registers exactly these ApiUser objects (authentication inventory; names are unique, passwords and CNs need not be)
  *   B <Authorization header, hex|->                        | <user name|none|throw> dec=<hex|throw|->
@@ -89,6 +97,7 @@
 #include "config/activationcontext.hpp"
 #include "base/workqueue.hpp"
 #include "base/configuration.hpp"
+#include "icinga/downtime.hpp"
 #include <boost/asio/spawn.hpp>
 #include <boost/beast/http.hpp>
 #include <algorithm>
@@ -101,6 +110,7 @@ using namespace vh;
 
 typedef Value (*LookupFn)(const String&, const String&, const ApiUser::Ptr&);
 namespace vh {
+VH_ROB_MEMBER(ConnUserTag, HttpServerConnection, ApiUser::Ptr, m_ApiUser)
 VH_ROB_STATIC(LookupTag, LookupFn type, ApiActions, GetSingleObjectByNameUsingPermissions)
 }
 
@@ -232,8 +242,16 @@ static TimePeriod::Ptr GetPeriodObj(const std::string& name)
 	return t;
 }
 
-static bool SetInventory(const std::string& spec)
+/* round 4: inventories created through the API */
+static bool l_ApiInv = false;
+static std::vector<std::pair<std::string, std::string>> l_ApiObjs;   /* (type, name), hosts before services */
+static ConfigObject::Ptr ApiCreate(const std::string& type, const std::string& name, int mask);
+static void ApiCleanup();
+
+static bool SetInventory(const std::string& spec, bool api = false)
 {
+	ApiCleanup();
+	l_ApiInv = api;
 	for (auto& o : l_Registered) o->Unregister();
 	l_Registered.clear();
 	l_Inv.clear();
@@ -254,6 +272,19 @@ static bool SetInventory(const std::string& spec)
 		it.name = f[1];
 		it.mask = atoi(f[2].c_str()) & 15;
 		if (!it.checkable && (it.name == "e1" || it.name == "e2" || it.name == "tp1" || it.name == "tp2")) return false; /* always registered */
+		if (api) {
+			if (!it.checkable || f.size() != 3) return false;
+			if (f[0] == "S") {
+				auto pos = it.name.find('!');
+				if (pos == std::string::npos || !seen.count("H:" + it.name.substr(0, pos))) return false;
+			} else if (it.name.find('!') != std::string::npos) return false;
+			it.obj = ApiCreate(it.type, it.name, it.mask);
+			if (!it.obj) return false;
+			l_ApiObjs.emplace_back(it.type, it.name);
+			l_Mask[it.obj.get()] = it.mask;
+			l_Inv.push_back(it);
+			continue;
+		}
 		if (f[0] == "H") it.obj = GetHost(it.name);
 		else if (f[0] == "S") it.obj = GetService(it.name);
 		else if (f[0] == "E") it.obj = GetEndpointObj(it.name);
@@ -762,6 +793,7 @@ static const char *kTypedActions[] = { "process-check-result", "reschedule-check
 	"execute-command" };
 static const char *kTypelessActions[] = { "shutdown-process", "restart-process", "generate-ticket" };
 static std::vector<ConfigObject::Ptr> l_Invoked;
+static bool l_RunReal = false;   /* round 4: run the original callback (schedule-downtime with all_services) */
 static int l_InvokedNull = 0;
 static std::map<std::string, std::string> l_ActionTypes;
 
@@ -780,7 +812,7 @@ static void InitActions()
 		bool run = name == "reschedule-check" || name == "remove-acknowledgement";
 		ApiAction::Ptr w = new ApiAction(orig->GetTypes(), [orig, run](const ConfigObject::Ptr& target, const Dictionary::Ptr& params) -> Value {
 			if (target) l_Invoked.push_back(target); else l_InvokedNull++;
-			if (run) return orig->Invoke(target, params);
+			if (run || l_RunReal) return orig->Invoke(target, params);
 			return new Dictionary({ { "code", 200 }, { "status", "verif" } });
 		});
 		ApiAction::Register(name, w);
@@ -840,6 +872,58 @@ static bool EnsureApiStorage()
 	return l_ApiOk;
 }
 
+static ConfigObject::Ptr ApiCreate(const std::string& type, const std::string& name, int mask)
+{
+	if (!EnsureApiStorage()) return nullptr;
+	Type::Ptr t = Type::GetByName(type);
+	Dictionary::Ptr vars = new Dictionary();
+	for (int k = 0; k < 4; k++) vars->Set("b" + Convert::ToString(k), (mask >> k & 1) != 0);
+	vars->Set("n", mask);
+	Dictionary::Ptr attrs = new Dictionary({ { "check_command", "dummy" }, { "vars", vars } });
+	Array::Ptr errors = new Array();
+	try {
+		String config = ConfigObjectUtility::CreateObjectConfig(t, name, true, nullptr, attrs);
+		if (!ConfigObjectUtility::CreateObject(t, name, config, errors, nullptr)) {
+			fprintf(stderr, "cannot create %s %s: %s\n", type.c_str(), name.c_str(), JsonEncode(errors).CStr());
+			return nullptr;
+		}
+	} catch (const std::exception& ex) {
+		fprintf(stderr, "cannot create %s %s: %s\n", type.c_str(), name.c_str(), DiagnosticInformation(ex, false).CStr());
+		return nullptr;
+	}
+	return ConfigObject::GetObject(type, name);
+}
+
+static void ApiCleanup()
+{
+	/* services first, then hosts */
+	for (int pass = 0; pass < 2; pass++)
+		for (auto& tn : l_ApiObjs) {
+			if ((tn.first == "Service") != (pass == 0)) continue;
+			ConfigObject::Ptr obj = ConfigObject::GetObject(tn.first, tn.second);
+			if (!obj) continue;
+			l_Mask.erase(obj.get());
+			Array::Ptr errors = new Array();
+			bool gone = false;
+			try { gone = ConfigObjectUtility::DeleteObject(obj, true, errors, nullptr); } catch (const std::exception&) { }
+			if (!gone) { fprintf(stderr, "cannot remove %s %s\n", tn.first.c_str(), tn.second.c_str()); Finish(4); }
+		}
+	l_ApiObjs.clear();
+}
+
+/* every downtime of every checkable of the inventory is removed again */
+static void RemoveAllDowntimes()
+{
+	for (auto& it : l_Inv) {
+		if (!it.checkable) continue;
+		for (const Downtime::Ptr& dt : static_pointer_cast<Checkable>(it.obj)->GetDowntimes()) {
+			try { Downtime::RemoveDowntime(dt->GetName(), true, DowntimeRemovedByUser); } catch (const std::exception&) { }
+		}
+	}
+	for (auto& it : l_Inv)
+		if (it.checkable && !static_pointer_cast<Checkable>(it.obj)->GetDowntimes().empty()) { fprintf(stderr, "downtimes left behind\n"); Finish(4); }
+}
+
 /* verbs: q = GET /v1/objects, m = POST /v1/objects (attrs={}), d = DELETE /v1/objects (the objects were not created through
  * the API, so every deletion is refused with code 500 and nothing changes), a:<action> = POST /v1/actions/<action>
  * (type and name travel as URL parameters; the objects acted on are read off the objects: next_check moved / acknowledgement
@@ -864,7 +948,7 @@ static bool DoH(const std::vector<std::string>& w)
 	auto addQ = [&](const std::string& k, const std::string& v) { qs += (qs.empty() ? "?" : "&") + k + "=" + UrlEnc(v); };
 	if (action) addQ("type", w[2]);
 	Dictionary::Ptr body = new Dictionary();
-	bool joins = false;
+	bool joins = false, cascade = false, allSvc = false;
 	std::string ft = "-", fast = "-";
 	for (size_t i = 3; i < w.size(); i++) {
 		const std::string& tok = w[i];
@@ -890,7 +974,17 @@ static bool DoH(const std::vector<std::string>& w)
 			if (fvars) body->Set("filter_vars", fvars);
 			Oracles(uf, w[2], text, fvars, ft, fast);
 		} else if (tok == "j") joins = true;
+		else if (tok == "cs=1" && verb == "d" && l_ApiInv) { cascade = true; addQ("cascade", "1"); }
+		else if (tok == "as=1" && verb == "a:schedule-downtime" && l_ApiInv) allSvc = true;
 		else return false;
+	}
+	if (allSvc) {
+		body->Set("author", "verif");
+		body->Set("comment", "verif");
+		body->Set("start_time", Utility::GetTime());
+		body->Set("end_time", Utility::GetTime() + 3600);
+		body->Set("fixed", true);
+		body->Set("all_services", true);
 	}
 	const char *kTouched = "vtouched";
 	bool existedBefore = false;
@@ -929,7 +1023,10 @@ static bool DoH(const std::vector<std::string>& w)
 			c->SetAcknowledgementRaw(AcknowledgementNormal);
 		}
 	http::response<http::string_body> resp;
+	l_RunReal = allSvc;
 	bool ok = Dispatch(req, resp);
+	l_RunReal = false;
+	(void)cascade;
 	std::vector<std::string> names, joined;
 	long count = 0;
 	int status = !ok ? 599 : (int)resp.result_int();
@@ -1026,6 +1123,31 @@ static bool DoH(const std::vector<std::string>& w)
 	printf("%s | %d %s cnt=%ld jn=%s ft=%s fast=%s", pre.c_str(), status, join(names).c_str(), count, join(joined).c_str(), ft.c_str(), fast.c_str());
 	if (verb == "m") printf(" ch=%s", changed.c_str());
 	if (action) printf(" ty=%s", l_ActionTypes[verb.substr(2)].c_str());
+	if (allSvc) {
+		/* which objects of the WHOLE inventory did the action act on?  (a downtime exists) */
+		std::vector<std::string> dt;
+		for (auto& it : l_Inv)
+			if (it.checkable && !static_pointer_cast<Checkable>(it.obj)->GetDowntimes().empty()) dt.push_back(it.type + "/" + it.name);
+		std::sort(dt.begin(), dt.end());
+		printf(" dt=%s", join(dt).c_str());
+		RemoveAllDowntimes();
+	}
+	if (verb == "d" && l_ApiInv) {
+		/* which objects of the WHOLE inventory are gone?  they are created again (hosts first) */
+		std::vector<std::string> gone;
+		for (int pass = 0; pass < 2; pass++)
+			for (auto& it : l_Inv) {
+				if (it.host != (pass == 0)) continue;
+				if (ConfigObject::GetObject(it.type, it.name)) continue;
+				gone.push_back(it.type + "/" + it.name);
+				l_Mask.erase(it.obj.get());
+				it.obj = ApiCreate(it.type, it.name, it.mask);
+				if (!it.obj) { fprintf(stderr, "cannot re-create %s %s\n", it.type.c_str(), it.name.c_str()); Finish(4); }
+				l_Mask[it.obj.get()] = it.mask;
+			}
+		std::sort(gone.begin(), gone.end());
+		printf(" gone=%s", join(gone).c_str());
+	}
 	printf("\n");
 	return true;
 }
@@ -1178,6 +1300,20 @@ static bool DoN(const std::vector<std::string>& w)
 	return true;
 }
 
+/* V <identity, hex|-> <authenticated 0|1>                | <user name|none>
+ *     a new HttpServerConnection(identity, authenticated, stream): which ApiUser does the CONNECTION carry (m_ApiUser)?  Every
+ *     request on it runs as that user before any Authorization header is looked at (httpserverconnection.cpp:47-48, :510-514);
+ *     `authenticated` = the TLS layer verified the client certificate, `identity` = its CN */
+static bool DoV(const std::vector<std::string>& w)
+{
+	std::string id;
+	if (w.size() < 3 || !UnHex(w[1], id) || (w[2] != "0" && w[2] != "1") || !l_HttpOk) return false;
+	HttpServerConnection::Ptr conn = new HttpServerConnection(String(id), w[2] == "1", l_Stream);
+	ApiUser::Ptr u = (*conn).*get(ConnUserTag());
+	printf("V %s %s | %s\n", w[1].c_str(), w[2].c_str(), u ? u->GetName().CStr() : "none");
+	return true;
+}
+
 static bool DoLine(const std::string& line)
 {
 	std::string pre = line.substr(0, line.find(" | "));
@@ -1186,9 +1322,11 @@ static bool DoLine(const std::string& line)
 	if (w[0] == "M") return DoM(w);
 	if (w[0] == "C") {
 		if (w.size() < 2) return false;
-		if (!SetInventory(w[1])) return false;
+		bool api = w.size() > 2 && w[2] == "api";
+		if (w.size() > 2 && !api) return false;
+		if (!SetInventory(w[1], api)) return false;
 		ResetUser();
-		printf("C %s\n", w[1].c_str());
+		printf("C %s%s\n", w[1].c_str(), api ? " api" : "");
 		return true;
 	}
 	if (w[0] == "P") return DoP(w);
@@ -1200,6 +1338,7 @@ static bool DoLine(const std::string& line)
 	if (w[0] == "K") return DoK(w);
 	if (w[0] == "B") return DoB(w);
 	if (w[0] == "N") return DoN(w);
+	if (w[0] == "V") return DoV(w);
 	if (w[0][0] == '#') return true;
 	return false;
 }
@@ -1524,6 +1663,60 @@ static void GenCase(Rng& r)
 }
 
 /* Joined objects as an access path: objects of different types share names, the user has per-type permissions */
+/* round 4: an inventory created through the API - deletes that really delete (with and without cascade) and the real
+ * schedule-downtime with all_services; observed: which objects of the WHOLE inventory are gone / have a downtime */
+static void GenApiCase(Rng& r)
+{
+	std::vector<std::string> hosts, svcs;
+	for (int i = 0; i < 4; i++)
+		if (r.below(2) == 0 || (i == 3 && hosts.empty())) {
+			hosts.push_back(std::string("H:") + kHostNames[i] + ":" + std::to_string(r.below(16)));
+			for (int j = 0; j < 3; j++)
+				if (r.below(3) == 0) svcs.push_back(std::string("S:") + kHostNames[i] + "!" + kSvcShort[j] + ":" + std::to_string(r.below(16)));
+		}
+	for (size_t i = hosts.size(); i > 1; i--) std::swap(hosts[i - 1], hosts[r.below(i)]);
+	for (size_t i = svcs.size(); i > 1; i--) std::swap(svcs[i - 1], svcs[r.below(i)]);
+	std::string inv;
+	for (auto& it : hosts) inv += (inv.empty() ? "" : ",") + it;
+	for (auto& it : svcs) inv += "," + it;
+	Run("C " + inv + " api");
+
+	static const char *reqs[] = { "objects/delete/Host", "objects/delete/Service", "actions/schedule-downtime", "objects/delete/Host" };
+	std::string req = reqs[r.below(4)];
+	int np = 1 + (int)r.below(3);
+	if (r.below(10) == 0) np = 0;
+	for (int i = 0; i < np; i++) {
+		std::string pat = GenPattern(r, req);
+		std::string f = "-";
+		if (r.below(3) != 0) f = GenFilter(r, 2, true, false);
+		Run("P " + Enc(pat) + " " + f + " " + (r.coin() ? "s" : "d"));
+	}
+	int nq = 3 + (int)r.below(4);
+	for (int qi = 0; qi < nq; qi++) {
+		std::string what = r.below(5) == 0 ? reqs[r.below(4)] : req;
+		bool dt = what == "actions/schedule-downtime";
+		bool svc = dt ? r.below(4) == 0 : what == "objects/delete/Service";
+		std::string T = svc ? "Service" : "Host";
+		std::string line = std::string("H ") + (dt ? "a:schedule-downtime " : "d ") + T;
+		/* an empty name in the URL path is no name at all: not generated here */
+		auto pick = [&](bool host) { std::string n = PickName(r, host); return n == "%e" ? std::string("nope") : n; };
+		switch (r.below(6)) {
+		case 0: case 1: line += " n=" + pick(!svc); break;
+		case 2: {
+			line += " p=";
+			int n = 1 + (int)r.below(2);
+			for (int i = 0; i < n; i++) line += (i ? "," : "") + pick(!svc);
+			break;
+		}
+		case 3: line += " f=" + (r.coin() ? GenFastFilter(r, svc) : GenFilter(r, 2, false, svc)); break;
+		default: break;
+		}
+		if (dt) line += " as=1";
+		else if (r.below(3) != 0) line += " cs=1";
+		Run(line);
+	}
+}
+
 static void GenJoinCase(Rng& r)
 {
 	static const char *names[] = { "h0", "h1", "web" };
@@ -1625,6 +1818,8 @@ static void GenAuthCase(Rng& r)
 	hs.push_back(basic(":")); hs.push_back(basic("::"));
 	for (auto& h : hs) Run("B " + Hex(h));
 	for (auto c : { "", "cn1", "agent.example", "CN1", "cn", "cn1 " }) Run("N " + Hex(c));
+	/* the connection level: an identity counts only when the TLS layer verified the certificate */
+	for (auto c : { "", "cn1", "agent.example", "CN1" }) { Run("V " + Hex(c) + " 1"); Run("V " + Hex(c) + " 0"); }
 }
 
 static void GenMatchExhaustive(int maxLen)
@@ -1690,6 +1885,9 @@ int main(int argc, char **argv)
 		int n = thorough ? 200000 : 20000;
 		for (int i = 0; i < (thorough ? 20000 : 2000); i++) GenAuthCase(rng);
 		for (int i = 0; i < n; i++) { if (rng.below(6) == 0) GenJoinCase(rng); else GenCase(rng); }
+		/* round 4, a stream of its own (the cases above stay what they were for a given seed) */
+		Rng apiRng(seeder.next() ^ 0xA91);
+		for (int i = 0; i < (thorough ? 6000 : 500); i++) GenApiCase(apiRng);
 	} else if (mode == "ops") {
 		if (argc < 3) return 2;
 		FILE *f = fopen(argv[2], "r");
